@@ -570,6 +570,18 @@ def lightness(ctx):
     else:
         f, arr, labels, ix, iy, iother, mclass = make_vector(rng, case, nvdim)
         angle = np.mod(np.arctan2(arr[..., iy], arr[..., ix]), 2 * np.pi)
+        if nvdim == 2 and rng.random() < 0.25:
+            # a partial mapping: only one of the two components points along a plane axis
+            # (the other one out of the plane); the in-plane angle is that of (u, 0) or (0, v)
+            mp = dict(f.vdim_mapping)
+            if rng.random() < 0.5:
+                mp[labels[iy]] = None
+                angle = np.mod(np.arctan2(0 * arr[..., ix], arr[..., ix]), 2 * np.pi)
+            else:
+                mp[labels[ix]] = None
+                angle = np.mod(np.arctan2(arr[..., iy], 0 * arr[..., iy]), 2 * np.pi)
+            f.vdim_mapping = mp
+            info["partial_mapping"] = True
         light = arr[..., iother] if nvdim == 3 else np.linalg.norm(arr, axis=-1)
         info.update(vdims=labels, mapping=dict(f.vdim_mapping))
     fkind, ff, fhid = case.filter(rng)
